@@ -154,8 +154,10 @@ def fill_iso_nuclide(nuc, kind, name, ng, spec):
 
 
 def hashed_iso_spec(sid, li, ng, kind, fw):
-    """Which optional reactions / scatter blocks a generated nuclide carries is a function of (source, label)."""
-    h = sid * 5 + li * 3 + (7 if kind == "g" else 0)
+    """Which optional reactions / scatter blocks a generated nuclide carries is a function of (label, parity of the source):
+    two sources of the same parity give a label entries of identical STRUCTURE (equal per-nuclide metadata) and different
+    numbers -- the overlap is then caught by XSCollection.merge; sources of different parity differ in the metadata too."""
+    h = (sid % 2) * 5 + li * 3 + (7 if kind == "g" else 0)
     fis = is_fissile(li) and kind == "n"
     spec = {"fis": fis, "rx": {}, "opt": {}, "scat": {}}
     spec["rx"]["nGamma"] = [val(sid, li, 1, g) for g in range(ng)]
@@ -222,7 +224,7 @@ def build_source(desc, sid):
             lib.gammaDoseConversionFactors = g_dose(desc["gd"], desc["ggs"])
         for li in labs:
             nuc = _new_nuc(lib, label_of(li))
-            h = sid * 5 + li * 3
+            h = (sid % 2) * 5 + li * 3       # structure by (label, parity of the source), numbers by source: see hashed_iso_spec
             fill_pmatrx_nuclide(nuc, nn, ngam, {
                 "nheat": [val(sid, li, 20, g) for g in range(nn)],           # every generated nuclide carries heating data
                 "ndamage": [val(sid, li, 21, g) for g in range(nn)],
